@@ -32,6 +32,8 @@ def items():
     return out
 
 page = tags.html(tags.body("shared page"))
+# one dependency object used by several documents: its head markup carries relative URLs
+shared_dep = HTMLDependency("shared", "1.0", source={"subdir": "lib"}, script={"src": "s.js"}, head=TagList(tags.script(src="rel/init.js"), tags.link(href="rel/a.css", rel="stylesheet")))
 
 
 def _more(out):
@@ -39,6 +41,9 @@ def _more(out):
     out["page-lang"] = lambda: HTMLDocument(page, lang="en").render()
     out["page-plain"] = lambda: HTMLDocument(page).render()
     out["text-quotes"] = lambda: div('say "hi" it\'s', title='t"q').render()
+    out["shared-dep-doc"] = lambda: HTMLDocument(div("a", shared_dep)).render(lib_prefix="lib")
+    out["shared-dep-doc2"] = lambda: HTMLDocument(span(shared_dep), shared_dep).render(lib_prefix="x/y")
+    out["shared-dep-tags"] = lambda: {"html": str(shared_dep.as_html_tags(lib_prefix="p")), "dependencies": []}
     return out
 
 
@@ -46,9 +51,14 @@ _items0 = items
 items = lambda: _more(_items0())
 its = items()
 res = {}
+dig = lambda r: hashlib.sha1((r["html"] + "|" + ";".join(d.name + "@" + str(d.version) for d in r["dependencies"])).encode()).hexdigest()
 for k in order:
-    r = its[k]()
-    res[k] = hashlib.sha1((r["html"] + "|" + ";".join(d.name + "@" + str(d.version) for d in r["dependencies"])).encode()).hexdigest()
+    res[k] = dig(its[k]())
+# ... and once more at the end of the process, after everything else has been rendered: same bytes
+for k in order:
+    res[k + "#again"] = dig(items()[k]())
+    if res[k + "#again"] != res[k]:
+        res[k + "#again"] = "DIFFERS-FROM-FIRST-RENDER"
 print(json.dumps(res, sort_keys=True))
 '''
 
@@ -58,7 +68,7 @@ def run(R, job):
     rnd = random.Random(job.get("seed", 0))
     n = job.get("n", 150)
     nproc = 6 if n <= 200 else 24
-    keys = ["deps-many", "doc", "attrs", "head-names", "textdoc", "textdoc2", "jsx", "list", "classes", "scripts-attrs", "page-lang", "page-plain", "text-quotes"]
+    keys = ["deps-many", "doc", "attrs", "head-names", "textdoc", "textdoc2", "jsx", "list", "classes", "scripts-attrs", "page-lang", "page-plain", "text-quotes", "shared-dep-doc", "shared-dep-doc2", "shared-dep-tags"]
     repo = os.environ.get("HV_REPO") or "/repo"
     fails, checked = [], 0
     ref = None
@@ -73,10 +83,15 @@ def run(R, job):
             fails.append({"input": f"battery in a fresh process (PYTHONHASHSEED={env['PYTHONHASHSEED']}, order {order})", "observed": p.stderr[-400:], "expected": "runs"})
             break
         got = json.loads(p.stdout.strip().splitlines()[-1])
+        stale = [k for k, v in got.items() if v == "DIFFERS-FROM-FIRST-RENDER"]
+        if stale:
+            fails.append({"input": f"PYTHONHASHSEED={env['PYTHONHASHSEED']}, render order {order}, then each construction rendered once more at the end of the process",
+                          "observed": f"{[k[:-6] for k in stale]} rendered differently the second time", "expected": "the same bytes regardless of what was rendered earlier"})
+            break
         if ref is None:
             ref = got
         elif got != ref:
-            diff = [k for k in keys if got.get(k) != ref.get(k)]
+            diff = [k for k in sorted(got) if got.get(k) != ref.get(k)]
             fails.append({"input": f"PYTHONHASHSEED={env['PYTHONHASHSEED']}, render order {order}", "observed": f"digests of {diff} differ from the first process (seed 0, order {keys})",
                           "expected": "byte-identical output in every process and order"})
             break
@@ -114,6 +129,16 @@ def run(R, job):
                           "expected": "the same name: equal content regardless of what happened earlier in the process"})
     finally:
         htmltools.html_dependency_render_mode = mode0
+    # equal content once per document, also when it arrives as serialised dependencies in a text document, in any arrangement (A, B, A)
+    hc, other = core.head_content(core.Tag("title", "T")), core.head_content(core.Tag("title", "U"))
+    for arrangement in ((hc, other, hc), (hc, hc, other), (other, hc, other, hc)):
+        checked += 1
+        txt = "<p>x</p>".join(str(x.serialize_to_script_json()) for x in arrangement) + "@@"
+        out = core.HTMLTextDocument(txt, deps_replace_pattern="@@").render()
+        nm = [d.name for d in out["dependencies"]]
+        if out["html"].count("<title>T</title>") != 1 or out["html"].count("<title>U</title>") != 1 or nm.count(hc.name) != 1 or nm.count(other.name) != 1:
+            fails.append({"input": "text document with serialised head_content items arranged " + "".join("T" if x is hc else "U" for x in arrangement),
+                          "observed": f"T {out['html'].count('<title>T</title>')}x, U {out['html'].count('<title>U</title>')}x, names {[n[:16] for n in nm]}", "expected": "each once"})
     doc = core.HTMLDocument(core.Tag("div", core.head_content(core.Tag("title", "T")), core.head_content(core.Tag("title", "T")), core.head_content(core.Tag("title", "U")))).render()["html"]
     if doc.count("<title>T</title>") != 1 or doc.count("<title>U</title>") != 1:
         fails.append({"input": "document with head_content(title T) twice and head_content(title U)", "observed": doc[:400], "expected": "T once, U once"})
